@@ -1,4 +1,4 @@
-import Proofs.HyphenSourceRun
+import Proofs.HyphenSourceFace
 /-!
 # C13, from source bytes — the hyphens of the SOURCE and the `.trim` nodes of the compiled tree
 
@@ -160,6 +160,114 @@ theorem hyphen_source_free_identity (P : Prims) (O : OutPrims) (cfg : Cfg) (fs :
     | err e => rw [hcs] at hB; cases hB
     | panic w => rw [hcs] at hB; cases hB
     | unmodelled w => rw [hcs] at hB; cases hB
+
+/-! ## A hyphen that faces a literal text
+
+The two rules of `Proofs/C13Template.lean` (`hyphen_faces_text_right`, `hyphen_faces_text_left_block`) read on source
+text, for a site at the top level of a template between two self-contained pieces: `A X -}}u B` against
+`A X }}u' B` with `u'` the left-stripped text, and `A u{{- X B` against `A u'{{ X B` with `u'` the right-stripped
+text. Deleting white space from the source moves the rest of the template up when a newline is deleted, so the two
+results are compared up to the line of the error (`RunResult.sameUpToLine`: the same output; or errors with the same
+cause, message and path flag; or the same panic); when no newline is deleted they are equal. -/
+
+/-- **hyphen_faces_text_right, from source bytes.** `A` is any item list and `X` an object or tag with a right
+    hyphen such that `A X` without that hyphen is a self-contained piece (`Compiles`: `X` may close a block opened in
+    `A`); `u` is a text whose left-stripped form `trimLeftSpace u` (`bytes.TrimLeftFunc(u, unicode.IsSpace)`) is not
+    empty (part of `Clean` of the second template); `B` is a self-contained piece without an `include` tag. For every
+    value layer, output layer, configuration with good delimiters, file system and environment, from any start line
+    ≥ 1: the source `A X -}}u B` and the source `A X }}u' B` — the hyphen deleted and the adjacent white space of the
+    text deleted with it — give results that agree up to the line of the error. -/
+theorem hyphen_faces_text_right_source (P : Prims) (O : OutPrims) (cfg : Cfg) (fs : FS) (fuel : Nat) (line : Nat) (env : Env)
+    (hline : 1 ≤ line) (A : List Item) (X : Item) (u : Bytes) (B : List Item) (hX : X.hr = true)
+    (hg : GoodDelims (Delims.ofList cfg.delims))
+    (hc1 : Clean (Delims.ofList cfg.delims) (A ++ X :: .text u :: B))
+    (hc2 : Clean (Delims.ofList cfg.delims) (A ++ X.clearR :: .text (trimLeftSpace u) :: B))
+    (hrc : RawClosed (A ++ X :: .text u :: B))
+    (hP : Compiles (Delims.ofList cfg.delims) (A ++ [X.clearR]) line) (hB : Compiles (Delims.ofList cfg.delims) B 0)
+    (hiB : NoIncludeItem B) :
+    (run P O cfg fs fuel (spell (Delims.ofList cfg.delims) (A ++ X :: .text u :: B)) line env).sameUpToLine
+      (run P O cfg fs fuel (spell (Delims.ofList cfg.delims) (A ++ X.clearR :: .text (trimLeftSpace u) :: B)) line env) := by
+  obtain ⟨nP, hnP⟩ := hP.nodes
+  obtain ⟨nB, hnB⟩ := hB.nodes
+  have hni := compiles_noIncl _ B 0 nB hnB hiB
+  rw [run_spell P O cfg fs fuel _ line env hg hc1, run_spell P O cfg fs fuel _ line env hg hc2,
+    compile_faceR_site _ A X u B line hX hrc nP nB hnP hnB, compile_faceR_site0 _ A X _ B line nP nB hnP hnB]
+  show (runRoot P O cfg fs fuel _ env).sameUpToLine (runRoot P O cfg fs fuel _ env)
+  rw [runRoot_faceR]
+  have key := runRoot_shift_tail P O cfg fs fuel
+    (nP ++ [.text (line + countNL (spell (Delims.ofList cfg.delims) (A ++ [X]))) (trimLeftSpace u)]) nB
+    (line + countNL (spell (Delims.ofList cfg.delims) (A ++ [X])) + countNL u)
+    (line + countNL (spell (Delims.ofList cfg.delims) (A ++ [X])) + countNL (trimLeftSpace u)) (by omega) (by omega) hni env
+  simp only [List.append_assoc, List.singleton_append] at key
+  exact key
+
+/-- the same when the white space deleted holds no newline: the two results are EQUAL (every line included), for
+    every `B` (an `include` tag allowed) and every start line -/
+theorem hyphen_faces_text_right_source_eq (P : Prims) (O : OutPrims) (cfg : Cfg) (fs : FS) (fuel : Nat) (line : Nat) (env : Env)
+    (A : List Item) (X : Item) (u : Bytes) (B : List Item) (hX : X.hr = true)
+    (hnl : countNL (trimLeftSpace u) = countNL u)
+    (hg : GoodDelims (Delims.ofList cfg.delims))
+    (hc1 : Clean (Delims.ofList cfg.delims) (A ++ X :: .text u :: B))
+    (hc2 : Clean (Delims.ofList cfg.delims) (A ++ X.clearR :: .text (trimLeftSpace u) :: B))
+    (hrc : RawClosed (A ++ X :: .text u :: B))
+    (hP : Compiles (Delims.ofList cfg.delims) (A ++ [X.clearR]) line) (hB : Compiles (Delims.ofList cfg.delims) B 0) :
+    run P O cfg fs fuel (spell (Delims.ofList cfg.delims) (A ++ X :: .text u :: B)) line env =
+      run P O cfg fs fuel (spell (Delims.ofList cfg.delims) (A ++ X.clearR :: .text (trimLeftSpace u) :: B)) line env := by
+  obtain ⟨nP, hnP⟩ := hP.nodes
+  obtain ⟨nB, hnB⟩ := hB.nodes
+  rw [run_spell P O cfg fs fuel _ line env hg hc1, run_spell P O cfg fs fuel _ line env hg hc2,
+    compile_faceR_site _ A X u B line hX hrc nP nB hnP hnB, compile_faceR_site0 _ A X _ B line nP nB hnP hnB, hnl]
+  show runRoot P O cfg fs fuel _ env = runRoot P O cfg fs fuel _ env
+  rw [runRoot_faceR]
+
+/-- **hyphen_faces_text_left, from source bytes.** `A` is a self-contained piece, `u` a text on which stripping the
+    two sides commutes (`TrimComm`, decidable; true of valid UTF-8: `trimComm_of_valid`) and whose right-stripped form
+    `trimRightSpace u` is not empty, `X` an object or tag with a left hyphen such that `X B` without that hyphen is a
+    self-contained piece without an `include` tag (`X` may open a block closed in `B`). From any start line ≥ 1 the
+    source `A u{{- X B` and the source `A u'{{ X B` — the hyphen deleted and the adjacent white space of the text
+    deleted with it — give results that agree up to the line of the error. (On a writer that fails the two renders
+    differ in what has been written: `hyphen_left_partial_output_differs`; `run` is the fault-free result.) -/
+theorem hyphen_faces_text_left_source (P : Prims) (O : OutPrims) (cfg : Cfg) (fs : FS) (fuel : Nat) (line : Nat) (env : Env)
+    (hline : 1 ≤ line) (A : List Item) (u : Bytes) (X : Item) (B : List Item) (hX : X.hl = true) (hu : TrimComm u)
+    (hg : GoodDelims (Delims.ofList cfg.delims))
+    (hc1 : Clean (Delims.ofList cfg.delims) (A ++ .text u :: X :: B))
+    (hc2 : Clean (Delims.ofList cfg.delims) (A ++ .text (trimRightSpace u) :: X.clearL :: B))
+    (hrc : RawClosed (A ++ .text u :: X :: B))
+    (hA : Compiles (Delims.ofList cfg.delims) A line) (hQ : Compiles (Delims.ofList cfg.delims) (X.clearL :: B) 0)
+    (hiQ : NoIncludeItem (X.clearL :: B)) :
+    (run P O cfg fs fuel (spell (Delims.ofList cfg.delims) (A ++ .text u :: X :: B)) line env).sameUpToLine
+      (run P O cfg fs fuel (spell (Delims.ofList cfg.delims) (A ++ .text (trimRightSpace u) :: X.clearL :: B)) line env) := by
+  obtain ⟨nA, hnA⟩ := hA.nodes
+  obtain ⟨nQ, hnQ⟩ := hQ.nodes
+  have hni := compiles_noIncl _ _ 0 nQ hnQ hiQ
+  rw [run_spell P O cfg fs fuel _ line env hg hc1, run_spell P O cfg fs fuel _ line env hg hc2,
+    compile_faceL_site _ A u X B line hX hrc nA nQ hnA hnQ, compile_faceL_site0 _ A _ X B line nA nQ hnA hnQ]
+  show (runRoot P O cfg fs fuel _ env).sameUpToLine (runRoot P O cfg fs fuel _ env)
+  rw [runRoot_faceL P O cfg fs fuel nA _ _ u hu]
+  have key := runRoot_shift_tail P O cfg fs fuel
+    (nA ++ [.text (line + countNL (spell (Delims.ofList cfg.delims) A)) (trimRightSpace u)]) nQ
+    (line + countNL (spell (Delims.ofList cfg.delims) A) + countNL u)
+    (line + countNL (spell (Delims.ofList cfg.delims) A) + countNL (trimRightSpace u)) (by omega) (by omega) hni env
+  simp only [List.append_assoc, List.singleton_append] at key
+  exact key
+
+/-- the same when the white space deleted holds no newline: the two results are EQUAL -/
+theorem hyphen_faces_text_left_source_eq (P : Prims) (O : OutPrims) (cfg : Cfg) (fs : FS) (fuel : Nat) (line : Nat) (env : Env)
+    (A : List Item) (u : Bytes) (X : Item) (B : List Item) (hX : X.hl = true) (hu : TrimComm u)
+    (hnl : countNL (trimRightSpace u) = countNL u)
+    (hg : GoodDelims (Delims.ofList cfg.delims))
+    (hc1 : Clean (Delims.ofList cfg.delims) (A ++ .text u :: X :: B))
+    (hc2 : Clean (Delims.ofList cfg.delims) (A ++ .text (trimRightSpace u) :: X.clearL :: B))
+    (hrc : RawClosed (A ++ .text u :: X :: B))
+    (hA : Compiles (Delims.ofList cfg.delims) A line) (hQ : Compiles (Delims.ofList cfg.delims) (X.clearL :: B) 0) :
+    run P O cfg fs fuel (spell (Delims.ofList cfg.delims) (A ++ .text u :: X :: B)) line env =
+      run P O cfg fs fuel (spell (Delims.ofList cfg.delims) (A ++ .text (trimRightSpace u) :: X.clearL :: B)) line env := by
+  obtain ⟨nA, hnA⟩ := hA.nodes
+  obtain ⟨nQ, hnQ⟩ := hQ.nodes
+  rw [run_spell P O cfg fs fuel _ line env hg hc1, run_spell P O cfg fs fuel _ line env hg hc2,
+    compile_faceL_site _ A u X B line hX hrc nA nQ hnA hnQ, compile_faceL_site0 _ A _ X B line nA nQ hnA hnQ, hnl]
+  show runRoot P O cfg fs fuel _ env = runRoot P O cfg fs fuel _ env
+  rw [runRoot_faceL P O cfg fs fuel nA _ _ u hu]
 
 /-! ## Non-vacuity, on concrete bytes (default delimiters)
 
@@ -381,3 +489,91 @@ example (fs : FS) : HyphenClean Delims.default c13Cap ∧ ¬ SrcCapTrimFree [] (
     show runRoot hyPrims hyOut {} fs 1 _ [] = _
     rw [runRoot_eq_resOfRoot]
     c13_eval [h]
+
+/-! ## Non-vacuity of the faces-text rules, on concrete bytes -/
+
+/-- `{% if v %}c{% endif %}` -/
+def c13B : List Item := [tg nmIf [118], .text [99], tg (endPrefix ++ nmIf) []]
+
+/-- `a{{ v -}}␠⏎␠b{% if v %}c{% endif %}` and `a{{ v }}b{% if v %}c{% endif %}` (an object with a right hyphen before a
+    text that begins with white space holding a newline): the same result up to the line of the error, for every
+    value layer, output layer, file system and environment -/
+example (P : Prims) (O : OutPrims) (fs : FS) (env : Env) :
+    (run P O {} fs 1 (spell Delims.default ([.text [97]] ++ .obj [118] false true [32] [32] :: .text [32, 10, 32, 98] :: c13B)) 1 env).sameUpToLine
+      (run P O {} fs 1 (spell Delims.default
+        ([.text [97]] ++ (Item.obj [118] false true [32] [32]).clearR :: .text (trimLeftSpace [32, 10, 32, 98]) :: c13B)) 1 env) :=
+  hyphen_faces_text_right_source P O {} fs 1 1 env (by decide) [.text [97]] (.obj [118] false true [32] [32]) [32, 10, 32, 98] c13B
+    rfl (by decide) (by decide) (by decide) (by decide) (by decide) (by decide) (by decide)
+
+example : spell Delims.default ([.text [97]] ++ .obj [118] false true [32] [32] :: .text [32, 10, 32, 98] :: c13B) =
+    [97, 123, 123, 32, 118, 32, 45, 125, 125, 32, 10, 32, 98, 123, 37, 32, 105, 102, 32, 118, 32, 37, 125, 99,
+     123, 37, 32, 101, 110, 100, 105, 102, 32, 37, 125] ∧
+    spell Delims.default ([.text [97]] ++ (Item.obj [118] false true [32] [32]).clearR :: .text (trimLeftSpace [32, 10, 32, 98]) :: c13B) =
+    [97, 123, 123, 32, 118, 32, 125, 125, 98, 123, 37, 32, 105, 102, 32, 118, 32, 37, 125, 99,
+     123, 37, 32, 101, 110, 100, 105, 102, 32, 37, 125] := by decide
+
+/-- `{% if v %}a{% endif -%}⏎␠b` and `{% if v %}a{% endif %}b`: the hyphen stands on a tag that closes a block -/
+example (P : Prims) (O : OutPrims) (fs : FS) (env : Env) :
+    (run P O {} fs 1 (spell Delims.default ([tg nmIf [118], .text [97]] ++
+        .tag (endPrefix ++ nmIf) [] false true [32] [] [] :: .text [10, 32, 98] :: [])) 1 env).sameUpToLine
+      (run P O {} fs 1 (spell Delims.default ([tg nmIf [118], .text [97]] ++
+        (Item.tag (endPrefix ++ nmIf) [] false true [32] [] []).clearR :: .text (trimLeftSpace [10, 32, 98]) :: [])) 1 env) :=
+  hyphen_faces_text_right_source P O {} fs 1 1 env (by decide) _ _ _ _ rfl (by decide) (by decide) (by decide) (by decide)
+    (by decide) (by decide) (by decide)
+
+/-- `a{{ v -}}␠b{% include "f" %}` and `a{{ v }}b{% include "f" %}`: no newline is deleted, the results are equal, an
+    `include` tag may follow -/
+example (P : Prims) (O : OutPrims) (fs : FS) (env : Env) :
+    run P O {} fs 1 (spell Delims.default ([.text [97]] ++ .obj [118] false true [32] [32] :: .text [32, 98] ::
+        [tg nmInclude [34, 102, 34]])) 1 env =
+      run P O {} fs 1 (spell Delims.default ([.text [97]] ++ (Item.obj [118] false true [32] [32]).clearR ::
+        .text (trimLeftSpace [32, 98]) :: [tg nmInclude [34, 102, 34]])) 1 env :=
+  hyphen_faces_text_right_source_eq P O {} fs 1 1 env _ _ _ _ rfl (by decide) (by decide) (by decide) (by decide) (by decide)
+    (by decide) (by decide)
+
+/-- `{{ v }}a␠⏎␠{{- v }}{% if v %}c{% endif %}` and `{{ v }}a{{ v }}{% if v %}c{% endif %}` -/
+example (P : Prims) (O : OutPrims) (fs : FS) (env : Env) :
+    (run P O {} fs 1 (spell Delims.default ([ob [118]] ++ .text [97, 32, 10, 32] :: .obj [118] true false [32] [32] :: c13B)) 1 env).sameUpToLine
+      (run P O {} fs 1 (spell Delims.default
+        ([ob [118]] ++ .text (trimRightSpace [97, 32, 10, 32]) :: (Item.obj [118] true false [32] [32]).clearL :: c13B)) 1 env) :=
+  hyphen_faces_text_left_source P O {} fs 1 1 env (by decide) [ob [118]] [97, 32, 10, 32] (.obj [118] true false [32] [32]) c13B
+    rfl (by decide) (by decide) (by decide) (by decide) (by decide) (by decide) (by decide) (by decide)
+
+/-- `a⏎{%- if v %}c{% endif %}d` and `a{% if v %}c{% endif %}d`: the hyphen stands on a tag that opens a block -/
+example (P : Prims) (O : OutPrims) (fs : FS) (env : Env) :
+    (run P O {} fs 1 (spell Delims.default ([] ++ .text [97, 10] :: .tag nmIf [118] true false [32] [32] [32] ::
+        [.text [99], tg (endPrefix ++ nmIf) [], .text [100]])) 1 env).sameUpToLine
+      (run P O {} fs 1 (spell Delims.default ([] ++ .text (trimRightSpace [97, 10]) ::
+        (Item.tag nmIf [118] true false [32] [32] [32]).clearL :: [.text [99], tg (endPrefix ++ nmIf) [], .text [100]])) 1 env) :=
+  hyphen_faces_text_left_source P O {} fs 1 1 env (by decide) _ _ _ _ rfl (by decide) (by decide) (by decide) (by decide)
+    (by decide) (by decide) (by decide) (by decide)
+
+/-- **Why "up to the line".** `a{{ v -}}⏎b{% cycle "b" %}` fails at the cycle tag on line 2; with the hyphen and the
+    newline deleted, `a{{ v }}b{% cycle "b" %}` fails with the same message at the same tag, now on line 1. (The Go
+    engine reports the line of the tag in the source it was given, like the model.) -/
+example (fs : FS) :
+    run hyPrims hyOut {} fs 1 (spell Delims.default ([.text [97]] ++ .obj [118] false true [32] [32] :: .text [10, 98] ::
+      [tg nmCycle [34, 98, 34]])) 1 [] = .err ⟨2, true, .none, .cycleOutside⟩ ∧
+    run hyPrims hyOut {} fs 1 (spell Delims.default ([.text [97]] ++ (Item.obj [118] false true [32] [32]).clearR ::
+      .text (trimLeftSpace [10, 98]) :: [tg nmCycle [34, 98, 34]])) 1 [] = .err ⟨1, true, .none, .cycleOutside⟩ := by
+  have hc1 : compileSource [] (spell Delims.default ([.text [97]] ++ .obj [118] false true [32] [32] :: .text [10, 98] ::
+      [tg nmCycle [34, 98, 34]])) 1 = .ok [.text 1 [97], .obj 1 (.var [118]), .trim false, .text 1 [10, 98], .cycle 2 [] [98] []] :=
+    (compileSource_spell [] _ 1 (by decide) (by decide)).trans (by rfl)
+  have hc2 : compileSource [] (spell Delims.default ([.text [97]] ++ (Item.obj [118] false true [32] [32]).clearR ::
+      .text (trimLeftSpace [10, 98]) :: [tg nmCycle [34, 98, 34]])) 1 =
+      .ok [.text 1 [97], .obj 1 (.var [118]), .text 1 [98], .cycle 1 [] [98] []] :=
+    (compileSource_spell [] _ 1 (by decide) (by decide)).trans (by rfl)
+  have h1 : trimLeftSpace [10, 98] = [98] := by decide
+  constructor
+  · rw [run_eq_runCompiled]
+    show runCompiled hyPrims hyOut {} fs 1 (compileSource [] _ 1) [] = _
+    rw [hc1]
+    show runRoot hyPrims hyOut {} fs 1 _ [] = _
+    rw [runRoot_eq_resOfRoot]
+    c13_eval [h1]
+  · rw [run_eq_runCompiled]
+    show runCompiled hyPrims hyOut {} fs 1 (compileSource [] _ 1) [] = _
+    rw [hc2]
+    show runRoot hyPrims hyOut {} fs 1 _ [] = _
+    rw [runRoot_eq_resOfRoot]
+    c13_eval [h1]
